@@ -1,4 +1,5 @@
 """E5 - sibling / mirror comparison of statements under an explicit renaming."""
+from .astutil import clone as _clone
 import ast
 import copy
 import re
@@ -42,18 +43,18 @@ def renamed(node, mapping, str_mapping=None, token_mapping=None):
     sm = dict(str_mapping or {})
     for a, b in list(sm.items()):
         sm.setdefault(b, a)
-    n2 = copy.deepcopy(node)
+    n2 = _clone(node)
     return ast.fix_missing_locations(_Renamer(full, sm, token_mapping).visit(n2))
 
 
 def canon(node):
     """normal form modulo AugAssign == Assign(BinOp) and commutativity of + * & |"""
-    n = copy.deepcopy(node)
+    n = _clone(node)
 
     class C(ast.NodeTransformer):
         def visit_AugAssign(self, st):
             self.generic_visit(st)
-            tgt_load = copy.deepcopy(st.target)
+            tgt_load = _clone(st.target)
             for x in ast.walk(tgt_load):
                 if hasattr(x, "ctx"):
                     x.ctx = ast.Load()
@@ -87,3 +88,41 @@ def mirror_equal(a, b, mapping, str_mapping=None, token_mapping=None):
 
 def mirror_diff(a, b, mapping, str_mapping=None, token_mapping=None):
     return canon(renamed(a, mapping, str_mapping, token_mapping)), canon(b)
+
+
+def alpha_equal(stmts_a, stmts_b, fixed=None):
+    """are the two statement sequences equal up to a consistent (bijective) renaming of names? `fixed` pins some names
+    (e.g. self -> clf). Both sides are compared in the canonical spelling of pm.norm_src."""
+    fixed = dict(fixed or {})
+    fwd, bwd = dict(fixed), {v: k for k, v in fixed.items()}
+
+    def canon_ast(st):
+        try:
+            return ast.parse(str(norm_src(st))).body[0]
+        except (SyntaxError, IndexError):
+            return st
+
+    def eq(x, y):
+        if type(x) is not type(y):
+            return False
+        if isinstance(x, ast.Name):
+            if x.id in fwd:
+                return fwd[x.id] == y.id
+            if y.id in bwd:
+                return False
+            fwd[x.id] = y.id
+            bwd[y.id] = x.id
+            return True
+        if isinstance(x, ast.AST):
+            for f_ in x._fields:
+                if f_ == "ctx":
+                    continue
+                if not eq(getattr(x, f_, None), getattr(y, f_, None)):
+                    return False
+            return True
+        if isinstance(x, list):
+            return len(x) == len(y) and all(eq(a, b) for a, b in zip(x, y))
+        return x == y
+    a = [canon_ast(s) for s in stmts_a]
+    b = [canon_ast(s) for s in stmts_b]
+    return len(a) == len(b) and all(eq(x, y) for x, y in zip(a, b))
